@@ -22,7 +22,7 @@ LEVEL_TEXT = ("For each of the 16 operation variants and each step of its exchan
 RULE = ("case = (operation, step of the exchange, fault reply); fault alphabet {EOF, one empty read while the stream goes on, the request echoed back, prefix of length 1..len-1, pattern bytes "
         "of length 1..1024, single corrupted field}; non-trivial = fault other than EOF, or EOF at a step > 1; distinct by "
         "(kind, step, fault)."
-        ' Cases optionally run 0..3 good operations on the same connection first, carry a virtual clock up to 2^32 s, and the fault alphabet includes the request echoed back.')
+        ' Cases optionally run 0..3 good operations on the same connection first, carry a virtual clock up to 2^32 s, and the fault alphabet includes the request echoed back. slow-device: every step of every state query answered correctly but 6 s .. 25 h late (harness-owned event-loop clock), with and without retries; repeated-empty-login: 70 (thorough 300) consecutive empty login replies for one device id in one process, for every state query and type-2 operation.')
 ASSUMPTIONS = [
     "an empty reply is modelled as the device half-closing the connection (reader.read returns b'' only at EOF); later reads are empty too",
     "connection resets are outside the fault alphabet",
@@ -77,6 +77,8 @@ def apply_fault(valid, fault, rk):
         return pattern(fault["len"], fault["seed"])
     if t == "echo":
         return b"<the request itself>"
+    if t == "slow":
+        return valid
     if t == "corrupt":
         name, off, data = CORRUPTIONS[rk][fault["index"] % len(CORRUPTIONS[rk])]
         b = bytearray(valid)
@@ -119,6 +121,8 @@ async def exchange(case):
                 count[0] += 1
                 return b"" if i == step else got
             rd.read = read
+        elif case["fault"]["type"] == "slow":
+            script[step]["sleep"] = case["fault"]["secs"]       # the right reply, late (event-loop time, harness-owned clock)
         elif case["fault"]["type"] == "echo":
             script[step] = {"echo": True}
         else:
@@ -126,7 +130,11 @@ async def exchange(case):
         dev.set_script(script)
         from .. import vclock
         with vclock.frozen_epoch("UTC", case.get("ts", 1_700_000_000)):
-            status, res = await cl.call(kind, a)
+            status, res = await cl.call(kind, a, timeout=40.0 + 2 * case["fault"].get("secs", 0))
+            if case["fault"]["type"] == "slow" and status != "ok":
+                import asyncio
+                await asyncio.sleep(case["fault"]["secs"] + 1)      # let the device finish its late answer
+                await cl.settle()
         sent = list(cl.conn.sent)
         frames = list(cl.conn.frames[nbefore:])
         # the caller tries again on the same object (state queries only): whatever the connection is worth by now, the
@@ -139,6 +147,80 @@ async def exchange(case):
         return status, res, frames, sent, data
     finally:
         await cl.close()
+
+
+def body_slow(rep, case):
+    """The device answers one step correctly but seconds to hours late.  A state query may wait and return the parsed
+    response, or give up with RuntimeError - nothing else; asked again on the same connection it must again end in one
+    of the two."""
+    kind, step, fault = case["kind"], case["step"], case["fault"]
+    with net.virtual_time():
+        status, res, frames, sent, data = net.run(exchange(case))
+    rep.tick("slow-device", key=(kind, step, fault), nontrivial=True, sample=case, labels=(f"op={kind}", f"step={step}"))
+    ftag = f"slow@step{step}"
+    if status == "retry-raise":
+        raise Violation(f"C09/state-query-retry-raises-{type(res).__name__}/op={kind}/after-slow-reply", case,
+                        "a parsed response or RuntimeError", f"{type(res).__name__}: {res}")
+    if status == "timeout":
+        # asyncio.TimeoutError is what wait_for raises: ours (the operation never ended) or the library's own
+        raise Violation(f"C09/state-query-raises-TimeoutError/op={kind}/{ftag}", case, "a parsed response or RuntimeError",
+                        "TimeoutError (or no completion at all)")
+    if status == "raise":
+        if not isinstance(res, RuntimeError):
+            raise Violation(f"C09/state-query-raises-{type(res).__name__}/op={kind}/{ftag}", case,
+                            "a parsed response or RuntimeError", f"{type(res).__name__}: {res}")
+        rep.label("gave-up-on-slow-device")
+    elif type(res).__name__ != STATE_QUERIES[kind]:
+        raise Violation(f"C09/state-query-returns-{type(res).__name__}/op={kind}/{ftag}", case, STATE_QUERIES[kind], repr(res)[:200])
+
+
+def cases_slow(tier):
+    def gen_cases():
+        out = []
+        secs = [6, 11, 31, 61, 3601] + ([2, 4, 16, 121, 301, 901, 90_000] if tier == "thorough" else [])
+        for kind in STATE_QUERIES:
+            for step in range(nsteps(kind)):
+                for sc in secs:
+                    for retries in (0, 2):
+                        out.append({"kind": kind, "args": {}, "step": step, "fault": {"type": "slow", "secs": sc}, "retries": retries})
+        return out
+    return gen_cases
+
+
+async def empty_logins(case):
+    """The same device (one id) answers the login with nothing, n times in a row in this process (a device that is down):
+    every single call must raise RuntimeError after exactly one frame."""
+    dev = await env.device()
+    kind, a = case["kind"], c03.CANON_ARGS[case["kind"]]
+    for i in range(case["n"]):
+        cl = ops.Client(dev, ops.api_type(kind), case["device_id"], "18")
+        await cl.connect()
+        try:
+            dev.set_script([{"eof": True}])
+            status, res = await cl.call(kind, a)
+            frames = len(cl.conn.frames)
+        finally:
+            await cl.close()
+        if status != "raise" or not isinstance(res, RuntimeError) or frames != 1:
+            return i, status, res, frames
+    return None
+
+
+def body_empty_logins(rep, case):
+    bad = net.run(empty_logins(case), timeout=300)
+    rep.tick("repeated-empty-login", key=case, nontrivial=True, sample=case, n=case["n"], labels=(f"op={case['kind']}",))
+    if bad is not None:
+        i, status, res, frames = bad
+        raise Violation(f"C09/empty-login-not-fatal/op={case['kind']}/after-many-in-a-row", dict(case, failing_call=i + 1),
+                        "RuntimeError and exactly one frame", {"call": i + 1, "outcome": f"{status}: {res!r}"[:160], "frames": frames})
+
+
+def cases_empty_logins(tier):
+    def gen_cases():
+        n = 300 if tier == "thorough" else 70
+        kinds = list(STATE_QUERIES) + GENERIC2 + BREEZE
+        return [{"kind": k, "n": n, "device_id": f"d0{j:02x}e1"} for j, k in enumerate(kinds)]
+    return gen_cases
 
 
 def body(rep, case, sub=None):
@@ -291,4 +373,6 @@ def subchecks(tier):
         Sub("grid", lambda rep, case: body(rep, case, "grid"), cases=cases_grid(tier), shards=16, exhaustive=True),
         Sub("garbage", lambda rep, case: body(rep, case, "garbage"), strategy=strat_garbage, n=300_000 if big else 8000,
             shards=16 if big else 4),
+        Sub("slow-device", body_slow, cases=cases_slow(tier), shards=4, exhaustive=True),
+        Sub("repeated-empty-login", body_empty_logins, cases=cases_empty_logins(tier), shards=4, exhaustive=False),
     ]
